@@ -178,7 +178,22 @@ func (w *world) genDir(pMalformed float64) dirInfo {
 			default:
 				m.Symlinks = append(m.Symlinks, &remoteexecution.SymlinkNode{Name: bad, Target: "t"})
 			}
-		case 1, 2: // duplicate name, within or across the three lists
+		case 1: // duplicate name within one of the three lists
+			switch c := w.r.Intn(3); {
+			case c == 0 && len(m.Directories) > 0:
+				n := m.Directories[w.r.Intn(len(m.Directories))].Name
+				m.Directories = append(m.Directories, &remoteexecution.DirectoryNode{Name: n, Digest: w.emptyDirDigest().GetProto()})
+			case c == 1 && len(m.Files) > 0:
+				n := m.Files[w.r.Intn(len(m.Files))].Name
+				m.Files = append(m.Files, &remoteexecution.FileNode{Name: n, Digest: w.blobs[w.r.Intn(len(w.blobs))].d.GetProto(), IsExecutable: true})
+			case c == 2 && len(m.Symlinks) > 0:
+				n := m.Symlinks[w.r.Intn(len(m.Symlinks))].Name
+				m.Symlinks = append(m.Symlinks, &remoteexecution.SymlinkNode{Name: n, Target: "other"})
+			default:
+				d := w.emptyDirDigest().GetProto()
+				m.Directories = append(m.Directories, &remoteexecution.DirectoryNode{Name: "dup", Digest: d}, &remoteexecution.DirectoryNode{Name: "dup", Digest: d})
+			}
+		case 2: // duplicate name across the three lists
 			name := "dup"
 			if len(used) > 0 && w.r.Intn(3) > 0 {
 				for n := range used {
